@@ -6,7 +6,6 @@ import hashlib
 import json
 import os
 import re
-import resource
 import shutil
 import signal
 import subprocess
@@ -24,8 +23,11 @@ KNOWN = os.path.join(ROOT, "known_findings.json")
 KANI_FLAGS = [
     "-Z", "stubbing", "-Z", "unstable-options",
     "--no-memory-safety-checks", "--no-assertion-reach-checks",
-    "-Z", "concrete-playback", "--concrete-playback=print",
 ]
+# Trace generation roughly triples CBMC's memory use, so concrete playback is requested only in a
+# second pass: for harnesses with a failed check, and for one cheap harness per run (cover witnesses
+# for the evidence file).
+PLAYBACK_FLAGS = ["-Z", "concrete-playback", "--concrete-playback=print"]
 
 # file stem -> (file of the scratch copy that mounts it, module path of the harness fns)
 MOUNTS = {
@@ -232,27 +234,56 @@ class Slot:
             self.fd = None
 
 
+def group_rss_kb(pgid):
+    total = 0
+    for d in os.listdir("/proc"):
+        if not d.isdigit():
+            continue
+        try:
+            with open("/proc/%s/stat" % d) as f:
+                parts = f.read().rsplit(")", 1)[1].split()
+            if int(parts[2]) != pgid:
+                continue
+            with open("/proc/%s/statm" % d) as f:
+                total += int(f.read().split()[1]) * 4
+        except (OSError, IndexError, ValueError):
+            continue
+    return total
+
+
 def run_cmd(cmd, cwd, timeout, mem_gb=None, env=None):
-    def pre():
-        os.setsid()
-        if mem_gb:
-            lim = mem_gb * (1 << 30)
-            resource.setrlimit(resource.RLIMIT_AS, (lim, lim))
+    """Run in its own process group under a wall-clock limit and a resident-memory limit (polled)."""
     t0 = time.time()
     p = subprocess.Popen(cmd, cwd=cwd, stdout=subprocess.PIPE, stderr=subprocess.STDOUT,
-                         preexec_fn=pre, env=env or ENV, text=True, errors="replace")
-    try:
-        out, _ = p.communicate(timeout=timeout)
-        status = p.returncode
-        timed_out = False
-    except subprocess.TimeoutExpired:
-        try:
-            os.killpg(p.pid, signal.SIGKILL)
-        except OSError:
-            pass
-        out, _ = p.communicate()
-        status, timed_out = -9, True
-    return status, out, timed_out, time.time() - t0
+                         preexec_fn=os.setsid, env=env or ENV, text=True, errors="replace")
+    state = {"killed": None, "peak": 0}
+
+    def watch():
+        while p.poll() is None:
+            if time.time() - t0 > timeout:
+                state["killed"] = "timeout"
+            elif mem_gb:
+                rss = group_rss_kb(p.pid)
+                state["peak"] = max(state["peak"], rss)
+                if rss > mem_gb * (1 << 20):
+                    state["killed"] = "memory"
+            if state["killed"]:
+                try:
+                    os.killpg(p.pid, signal.SIGKILL)
+                except OSError:
+                    pass
+                return
+            time.sleep(1.0)
+
+    import threading
+    th = threading.Thread(target=watch, daemon=True)
+    th.start()
+    out, _ = p.communicate()
+    th.join(timeout=5)
+    status = p.returncode
+    if state["killed"] == "memory":
+        out += "\n[driver] killed: resident memory above %d GB (peak %d MB)\n" % (mem_gb, state["peak"] // 1024)
+    return status, out, state["killed"], time.time() - t0
 
 
 # --------------------------------------------------------------------------- Kani output
@@ -310,21 +341,28 @@ def classify_failure(chk):
 
 # --------------------------------------------------------------------------- running harnesses
 
-def run_harness(h, scratch, tier):
+def run_harness(h, scratch, tier, playback=False):
     slot = Slot()
     try:
         d = scratch.get("kani", h["cap"])
         cmd = ["cargo", "kani", "--target-dir", slot.dir, "--harness", h["full"], "--exact"] + KANI_FLAGS + h["args"]
+        if playback:
+            cmd += PLAYBACK_FLAGS
         to = h["timeout"]
         status, out, timed_out, wall = run_cmd(cmd, d, to, h["mem_gb"])
         res = parse_kani(out)
         res.update({"name": h["name"], "wall_s": round(wall, 2), "exit": status, "timed_out": timed_out,
                     "cmd": " ".join(cmd)})
         res["raw_tail"] = out[-6000:]
+        os.makedirs(os.path.join(BUILD, "logs"), exist_ok=True)
+        with open(os.path.join(BUILD, "logs", h["name"] + ".log"), "w") as lf:
+            lf.write(out)
         if timed_out:
-            res["outcome"], res["why"] = "inconclusive", "timeout after %ds" % to
+            res["outcome"], res["why"] = "inconclusive", ("timeout after %ds" % to if timed_out == "timeout" else "memory limit %d GB exceeded: %s" % (h["mem_gb"], out[-60:].strip()))
         elif re.search(r"error(\[E\d+\])?:|could not compile", out) and res["verdict"] is None:
             res["outcome"], res["why"] = "inconclusive", "compile error (harness no longer fits /repo's source?)"
+            errs = re.findall(r"(error(?:\[E\d+\])?:.*?)(?=\n(?:error|warning)|\Z)", out, re.S)
+            res["compile_errors"] = "\n".join(e[:700] for e in errs[:4])
         elif res["verdict"] is None:
             res["outcome"], res["why"] = "inconclusive", "no verdict (out of memory / CBMC error), exit %s" % status
         else:
@@ -340,7 +378,9 @@ def run_harness(h, scratch, tier):
             if bound or undetermined:
                 res["outcome"] = "inconclusive"
                 res["why"] = "bound exceeded / undetermined: " + "; ".join(
-                    "%s (%s)" % (c["desc"][:80], c["loc"][:60]) for c in (bound + undetermined)[:3])
+                    "%s (%s)" % (c["desc"][:80], c["loc"][-70:]) for c in (bound + undetermined)[:3])
+                if undetermined and not bound:
+                    res["why"] = "checks UNDETERMINED (solver did not finish / CBMC died): " + res["why"][:200]
             elif cand:
                 res["outcome"] = "failed"
             elif res["verdict"] != "SUCCESSFUL":
@@ -482,6 +522,9 @@ def cmd_check(prop, tier, only, jobs, keep):
                     h["name"], res["outcome"], res["wall_s"], res.get("symex_s", 0), res.get("solver_s", 0),
                     res.get("decided", 0), res.get("covers_sat", "-"), res.get("covers_total", "-"),
                     res.get("why", "")))
+                if res.get("compile_errors") and not getattr(cmd_check, "_shown", False):
+                    cmd_check._shown = True
+                    log(res["compile_errors"])
         # twins (expect=fail) must fail; everything else is judged
         for h, res in results:
             if h["expect"] == "fail":
@@ -493,6 +536,10 @@ def cmd_check(prop, tier, only, jobs, keep):
                 continue
             if res["outcome"] != "failed":
                 continue
+            # second pass with trace generation to obtain the solver's assignment
+            log("  %s: failed check(s); re-running with concrete playback" % h["name"])
+            res2 = run_harness(h, scratch, tier, playback=True)
+            res["playback"] = res2.get("playback", [])
             # candidate violations: replay each failed check natively against the real crates
             for chk in res["candidates"]:
                 pbs = [p for p in res["playback"] if p["kind"] != "cover" and p["desc"] == chk["desc"]]
@@ -517,6 +564,13 @@ def cmd_check(prop, tier, only, jobs, keep):
                     os.remove(path)
                 else:
                     violations.append((h, chk, path, rr))
+        # cover witnesses for the evidence file: cheapest passed harness, re-run with playback
+        cheap = sorted([(r["wall_s"], h, r) for h, r in results if r["outcome"] == "passed" and r["wall_s"] < 120],
+                       key=lambda x: x[0])
+        if cheap and not violations:
+            _w, h, r = cheap[0]
+            r2 = run_harness(h, scratch, tier, playback=True)
+            r["playback"] = [p for p in r2.get("playback", []) if p["kind"] == "cover"]
         for kf, h, chk in known_hits:
             log("KNOWN-FINDING: property=%s %s [harness %s, check `%s`]" % (prop, kf["what"], h["name"], chk["desc"][:70]))
         for h, chk, path, rr in violations:
@@ -547,8 +601,8 @@ def write_evidence(prop, tier, seed, results, violations, known_hits, inconclusi
         symex += r.get("symex_s", 0)
         solver += r.get("solver_s", 0)
         ok_cov = r.get("covers_total", 0) > 0 and r.get("covers_sat") == r.get("covers_total")
-        if r["outcome"] in ("passed", "failed") and ok_cov and h["expect"] != "fail":
-            nontrivial += 1
+        if r["outcome"] in ("passed", "failed") and h["expect"] != "fail":
+            nontrivial += r.get("covers_sat", 0) or 0
         pf = poster_functions(r)
         funcs.update(pf)
         funcs.update(h["funcs"])
@@ -577,8 +631,9 @@ def write_evidence(prop, tier, seed, results, violations, known_hits, inconclusi
             "rule": "evaluations = solver-decided checks (assertions, panics, overflow and bounds checks, unwinding "
                     "assertions, cover properties) summed over the harnesses run; each is decided by CBMC+CaDiCaL for "
                     "ALL values of the harness's symbolic inputs within the stated bounds. distinct_nontrivial = "
-                    "harnesses (distinct units of the real code) whose cover properties were all SATISFIED, i.e. whose "
-                    "interesting branch is reachable (non-vacuous).",
+                    "number of distinct named cover properties (kani::cover! on the interesting branches: decoder returned "
+                    "Ok, boundary value reached, ...) that the solver reported SATISFIED with a concrete witness; a harness "
+                    "with an unsatisfied cover makes the whole check exit 2.",
             "samples": samples,
             "explanation": "Bounded model checking of the real poster source (Kani 0.68 -> CBMC 6.11 -> CaDiCaL) "
                            "regenerated from /repo's working tree on this run; per-harness bounds, assumptions and "
